@@ -347,6 +347,7 @@ func (c *Cache) writeDump(w io.Writer) (int, error) {
 	gw.Name = dumpHeader
 
 	block := new(CacheDumpBlock)
+	blockBytes := 0 // approximate size of block
 	writeBlock := func() error {
 		b, err := proto.Marshal(block)
 		if err != nil {
@@ -366,6 +367,7 @@ func (c *Cache) writeDump(w io.Writer) (int, error) {
 
 		en += len(block.GetEntries())
 		block.Reset()
+		blockBytes = 0
 		return nil
 	}
 
@@ -386,6 +388,13 @@ func (c *Cache) writeDump(w io.Writer) (int, error) {
 			Msg:                 msg,
 		}
 		block.Entries = append(block.Entries, e)
+
+		// readDump refuses blocks longer than dumpMaximumBlockLength. Keep
+		// blocks of large responses well below it.
+		blockBytes += len(e.Key) + len(e.Msg) + 32
+		if blockBytes >= dumpMaximumBlockLength/2 {
+			return writeBlock()
+		}
 
 		// Block is big enough for a write operation.
 		if len(block.Entries) >= dumpBlockSize {
